@@ -37,7 +37,10 @@ NearMiss ==
 \* the matrix is quadratic in the number of items: above the exhaustive bound the enumerated
 \* fragments are thinned (every PairStride-th by seed); the near-miss families are always complete
 CONSTANT PairStride
-Base == SetToSeq(Thin({x.a : x \in WTUpTo(MaxNodes)}, PairStride, CompSeed) \cup {a \in NearMiss : TypeOf(a, Ctx).ok})
+\* items must be accepted by the library's parser: well-typed also under its named deviation D1
+\* (d:X is never unit, so e.g. thresh(1,dv:0) is refused in tapscript although the specification types it)
+Base == SetToSeq({a \in Thin({x.a : x \in WTUpTo(MaxNodes)}, PairStride, CompSeed) \cup {a \in NearMiss : TypeOf(a, Ctx).ok}
+                  : TypeOfDev(a, Ctx).ok})
 
 Items == [q \in 1..(2 * Len(Base)) |->
             [ast |-> Base[((q - 1) \div 2) + 1], base |-> ((q - 1) \div 2) + 1, style |-> IF q % 2 = 1 THEN "x" ELSE "s"]]
